@@ -171,7 +171,7 @@ fn c03c_accept_sparse_2mib() { accepts(0x20, 1 << 21, Some(128), true) }
 fn c03c_accept_sparse_exact_2mib() {
     let c: u64 = kani::any();
     let d: u64 = kani::any();
-    kani::assume(c >= 5 && d >= 3 && d <= (1 << 21));
+    kani::assume(c >= 5 && c <= (1 << 21) && d >= 3 && d <= (1 << 21));
     kani::assume(c + 1 < d && d <= (c - 4) * 130);
     let tracker = SessionTracker::new();
     let limits = SecurityLimits::default();
